@@ -175,6 +175,18 @@ Section Instance.
   Lemma pure_check_fee : pure_st (check_fee_after_change orc).
   Proof. unfold check_fee_after_change. pure_tac. Qed.
 
+  (* add_output: a REFUSED output leaves the builder exactly as it was (the admission tests run before the push), an
+     accepted one is appended unchanged -- for every oracle.  The caller can go on using the builder after an error. *)
+  Lemma add_output_frame x s o :
+    match out_res (add_output orc x s o) with
+    | Ok _ => out_st (add_output orc x s o) = set_s_outputs (s_outputs s ++ [x]) s
+    | _ => out_st (add_output orc x s o) = s
+    end.
+  Proof.
+    unfold add_output, bindM, modify. pose proof (pure_output_acceptable x s o) as E.
+    destruct (out_res (output_acceptable orc x s o)); cbn [out_res out_st]; congruence.
+  Qed.
+
   (* a state-preserving computation in front of a continuation *)
   Lemma hoare_pure_bind {A B} J P (m : M A) (f : A -> M B) R :
     pure_st m -> (forall a, hoare J P (f a) R) -> hoare J P (bindM m f) R.
